@@ -111,15 +111,17 @@ theorem readVar_truncated (a : Bytes) (m : Nat) (ha : a.length < 65536) (hm : m 
 
 /-! Non-vacuity (tests): a concrete exchange, export, import, continue. -/
 def ivS : IV := ⟨7, [1,2,3,4,5,6,7,8,9,10,11,12]⟩
+def ivP : IV := ⟨9, [12,11,10,9,8,7,6,5,4,3,2,1]⟩
 def est : Stream :=
   let a := (({} : Stream).setKey 5 ivS)
-  match a.sendFrame [1] 1 with
-  | .ok (a1, f) =>
-    -- pretend the peer used the same IV: receive our own frame shape from the peer
-    match ({ a1 with decIV := ivS } : Stream).recvFrameWithEnd f with
+  let b := (({} : Stream).setKey 5 ivP)
+  match a.sendFrame [1] 1, b.sendFrame [2] 1 with
+  | .ok (a1, _), .ok (_, g) =>
+    -- the peer's first frame arrives
+    match a1.recvFrameWithEnd g with
     | .ok (a2, _, _) => a2
     | .error _ => a1
-  | .error _ => a
+  | _, _ => a
 example : Clean est := by unfold Clean; decide
 example : (est.exportFields (fun _ => [])).isOk = true := by decide
 example : ∃ e, (({} : Stream).setKey 5 ivS).exportFields (fun _ => []) = .error e := ⟨_, rfl⟩
